@@ -2,7 +2,7 @@
 // public generic constructors) on scripted in-memory transports with a minimal scripted broker
 // behind them.  One command = one scenario:
 //
-//   RUN <tokio|threaded> <connect_timeout_ms> <user script> ; <connection script> ; <connection script> ...
+//   RUN <tokio|threaded> <connect_timeout_ms|max> <user script> ; <connection script> ; <connection script> ...
 //
 // user script (executed in order on the caller's side of the public client API):
 //   start | stop | stopd (stop with a DISCONNECT packet) | close | drop (drop the client handle)
@@ -57,7 +57,7 @@ struct Scenario { threaded: bool, connect_timeout_ms: u64, acts: Vec<Act>, conns
 fn parse_scenario(toks: &[&str]) -> Result<Scenario, String> {
     if toks.len() < 2 { return Err("RUN: short".to_string()); }
     let threaded = match toks[0] { "tokio" => false, "threaded" => true, _ => return Err("RUN: driver".to_string()) };
-    let connect_timeout_ms = toks[1].parse::<u64>().map_err(|_| "bad timeout")?;
+    let connect_timeout_ms = if toks[1] == "max" { u64::MAX } else { toks[1].parse::<u64>().map_err(|_| "bad timeout")? };
     let mut sections: Vec<Vec<&str>> = vec![vec![]];
     for t in &toks[2..] { if *t == ";" { sections.push(vec![]); } else { sections.last_mut().unwrap().push(*t); } }
     let mut acts = Vec::new();
@@ -305,7 +305,7 @@ struct Collected { events: Arc<Mutex<Vec<String>>>, results: Arc<Mutex<Vec<Optio
 
 fn options(sc: &Scenario) -> (MqttClientOptions, ConnectOptions) {
     let mut b = MqttClientOptions::builder();
-    b.with_connect_timeout(Duration::from_millis(sc.connect_timeout_ms));
+    b.with_connect_timeout(if sc.connect_timeout_ms == u64::MAX { Duration::MAX } else { Duration::from_millis(sc.connect_timeout_ms) });
     b.with_base_reconnect_period(Duration::from_millis(5));
     b.with_max_reconnect_period(Duration::from_millis(40));     // normalised to >= 1 s by the client; see notes
     b.with_reconnect_period_jitter(ExponentialBackoffJitterType::None);
